@@ -1,0 +1,132 @@
+//go:build verif
+
+package dist
+
+// Contracts for the deductive verifier in /verif (gocv). Comment-only file,
+// compiled only under the `verif` build tag.
+//
+// C04, second sentence ("... without holding or leaving anything behind ... after Shutdown no attempt
+// ever acquires"), as per-call postconditions.  The store is seen through the kvs.Storage interface: the
+// contracts count what THIS call did through the handle (records created / deleted, CAS attempts) and
+// assume nothing about the store's contents.  Timers: the number this call armed.  The local token
+// (lockCh, capacity 1) is accounted by ghost counters sent()/received() of this call's channel operations.
+
+// the fields set by NewLocker / New and never changed
+//@ pred (l *kvsLock) built() = l != nil && l.dlp != nil && l.dlp.Storage != nil && l.dlp.done != nil && l.dlp.logger != nil && l.lockCh != nil && l.lockCh != l.dlp.done
+// this call neither took nor returned the local token, or took it and put it back
+//@ pred (l *kvsLock) tokenBalanced() = received(l.lockCh) - old(received(l.lockCh)) == sent(l.lockCh) - old(sent(l.lockCh)) && received(l.lockCh) - old(received(l.lockCh)) <= 1
+// ... or, only once the provider is shut down (nobody can acquire any more), took it and dropped it
+//@ pred (l *kvsLock) tokenNotHeld() = l.tokenBalanced() || (closed(l.dlp.done) && received(l.lockCh) == old(received(l.lockCh)) + 1 && sent(l.lockCh) == old(sent(l.lockCh)))
+// this call took the local token and keeps it
+//@ pred (l *kvsLock) tokenTaken() = received(l.lockCh) == old(received(l.lockCh)) + 1 && sent(l.lockCh) == old(sent(l.lockCh))
+// nothing was done to the store, no timer armed
+//@ pred (l *kvsLock) storeUntouched() = l.dlp.Storage.ncreate == old(l.dlp.Storage.ncreate) && l.dlp.Storage.ndelete == old(l.dlp.Storage.ndelete) && armed == old(armed)
+
+//@ pred sentOnce(ch chan bool) = sent(ch) == old(sent(ch)) + 1 && received(ch) == old(received(ch))
+//@ assumed func (l *kvsLock) String() string
+
+// local acquisition: nil => token taken and the counter went 0 -> 1; error => nothing taken, nothing changed;
+// after Shutdown (done closed) it never succeeds
+//@ func (l *kvsLock) lockInternal(ctx context.Context) error
+//@   props C04
+//@   maypanic
+// (the locker's token channel is private: it is not the context's Done channel)
+//@   requires l.built() && ctx != nil && doneCh(ctx) != l.lockCh
+//@   modifies l.lckCntr, ops(l.lockCh), ops(doneCh(ctx)), ops(l.dlp.done)
+//@   ensures r0 == nil ==> l.tokenTaken() && old(l.lckCntr) == 0 && l.lckCntr == 1 && !closed(l.dlp.done)
+//@   ensures r0 != nil ==> l.lckCntr == old(l.lckCntr) && l.tokenNotHeld()
+//@   ensures r0 != nil && !errIs(r0, errors.ErrClosed) ==> r0 == ctx.err && ctx.err != nil && l.tokenBalanced()
+//@   ensures closed(l.dlp.done) ==> r0 != nil
+
+//@ func (l *kvsLock) tryLockInternal() error
+//@   props C04
+//@   maypanic
+//@   requires l.built()
+//@   modifies l.lckCntr, ops(l.lockCh), ops(l.dlp.done)
+//@   ensures r0 == nil ==> l.tokenTaken() && old(l.lckCntr) == 0 && l.lckCntr == 1 && !closed(l.dlp.done)
+//@   ensures r0 != nil ==> l.lckCntr == old(l.lckCntr) && l.tokenNotHeld()
+//@   ensures closed(l.dlp.done) ==> r0 != nil
+
+// TryLock: true => this call created the lock record (its own, under l.key), armed one renewal timer, holds the local token,
+// counter 1.  false => nothing left behind: no record created, no timer armed, token not taken or put back, counter as found.
+// After Shutdown it never succeeds.  The waiters count is restored either way.
+//@ func (l *kvsLock) TryLock(ctx context.Context) bool
+//@   props C04
+//@   maypanic
+// (fewer than 2^30 concurrent callers on one locker)
+//@   requires l.built() && ctx != nil && 0 <= l.waiters && l.waiters < 1<<30
+//@   modifies ops(l.lockCh), ops(doneCh(ctx)), ops(l.dlp.done), l.lckCntr, l.waiters, l.future, l.dlp.Storage.ncreate, l.dlp.Storage.createdKey, l.dlp.Storage.createdVer, armed, clock
+//@   ensures l.waiters == old(l.waiters)
+//@   ensures r0 ==> l.tokenTaken() && l.lckCntr == 1 && l.dlp.Storage.ncreate == old(l.dlp.Storage.ncreate) + 1 && l.dlp.Storage.createdKey == l.key && armed == old(armed) + 1 && l.dlp.Storage.ndelete == old(l.dlp.Storage.ndelete) && implements(held(l.future), timeout.Future)
+//@   ensures !r0 ==> l.tokenNotHeld() && l.lckCntr == old(l.lckCntr) && l.storeUntouched()
+//@   ensures closed(l.dlp.done) ==> !r0
+
+// lockWithCtx / LockWithCtx: nil => this call created the lock record (its own, under l.key, in its last store operation), armed
+// one renewal timer, holds the local token, counter 1.  error => nothing left behind: no record created by this call, no timer
+// armed, token not taken or put back, counter as found (the error is ErrClosed, the context's error, or whatever the store's Create returned).  After Shutdown: error.
+//@ func (l *kvsLock) lockWithCtx(ctx context.Context) error
+//@   props C04
+//@   maypanic
+//@   requires l.built() && ctx != nil && doneCh(ctx) != l.lockCh && 0 <= l.waiters && l.waiters < 1<<30 && tablesOK() && classesOK()
+//@   modifies ops(l.lockCh), ops(doneCh(ctx)), ops(l.dlp.done), l.lckCntr, l.waiters, l.future, l.dlp.Storage.ncreate, l.dlp.Storage.createdKey, l.dlp.Storage.createdVer, armed, clock
+//@   ensures l.waiters == old(l.waiters)
+//@   ensures r0 == nil ==> l.tokenTaken() && l.lckCntr == 1 && l.dlp.Storage.ncreate == old(l.dlp.Storage.ncreate) + 1 && l.dlp.Storage.createdKey == l.key && armed == old(armed) + 1 && l.dlp.Storage.ndelete == old(l.dlp.Storage.ndelete) && implements(held(l.future), timeout.Future)
+//@   ensures r0 != nil ==> l.tokenNotHeld() && l.lckCntr == old(l.lckCntr) && l.storeUntouched()
+//@   ensures closed(l.dlp.done) ==> r0 != nil
+//@   loop 1
+//@     invariant l.built() && l == l0 && ctx == ctx0 && l.dlp == old(l.dlp) && l.dlp.Storage == old(l.dlp.Storage) && l.dlp.done == old(l.dlp.done) && l.lockCh == old(l.lockCh) && l.key == old(l.key)
+//@     invariant l.tokenTaken() && l.lckCntr == 1 && old(l.lckCntr) == 0 && l.waiters == old(l.waiters) + 1 && l.storeUntouched() && !closed(l.dlp.done)
+//@     invariant err != nil ==> err == ctx.err
+
+//@ func (l *kvsLock) LockWithCtx(ctx context.Context) error
+//@   props C04
+//@   maypanic
+//@   requires l.built() && ctx != nil && doneCh(ctx) != l.lockCh && 0 <= l.waiters && l.waiters < 1<<30 && tablesOK() && classesOK()
+//@   modifies ops(l.lockCh), ops(doneCh(ctx)), ops(l.dlp.done), l.lckCntr, l.waiters, l.future, l.dlp.Storage.ncreate, l.dlp.Storage.createdKey, l.dlp.Storage.createdVer, armed, clock
+//@   ensures l.waiters == old(l.waiters)
+//@   ensures r0 == nil ==> l.tokenTaken() && l.lckCntr == 1 && l.dlp.Storage.ncreate == old(l.dlp.Storage.ncreate) + 1 && l.dlp.Storage.createdKey == l.key && armed == old(armed) + 1 && l.dlp.Storage.ndelete == old(l.dlp.Storage.ndelete) && implements(held(l.future), timeout.Future)
+//@   ensures r0 != nil ==> l.tokenNotHeld() && l.lckCntr == old(l.lckCntr) && l.storeUntouched()
+//@   ensures closed(l.dlp.done) ==> r0 != nil
+
+// Lock returns only as a holder (it panics on error: with context.Background() the only error is ErrClosed after Shutdown)
+//@ func (l *kvsLock) Lock()
+//@   props C04
+//@   maypanic
+//@   requires l.built() && doneCh(bgCtx()) != l.lockCh && 0 <= l.waiters && l.waiters < 1<<30 && tablesOK() && classesOK()
+//@   modifies ops(l.lockCh), ops(doneCh(bgCtx())), ops(l.dlp.done), l.lckCntr, l.waiters, l.future, l.dlp.Storage.ncreate, l.dlp.Storage.createdKey, l.dlp.Storage.createdVer, armed, clock
+//@   ensures l.tokenTaken() && l.lckCntr == 1 && l.dlp.Storage.ncreate == old(l.dlp.Storage.ncreate) + 1 && l.dlp.Storage.createdKey == l.key && armed == old(armed) + 1 && implements(held(l.future), timeout.Future) && !closed(l.dlp.done)
+
+// Unlock (by the holder: counter 1): cancels the renewal timer stored in l.future, deletes exactly the lock record l.key once,
+// puts the token back once, counter 0.  An Unlock by a non-holder panics before touching anything (maypanic).
+//@ func (l *kvsLock) Unlock()
+//@   props C04
+//@   maypanic
+// (the holder got the lock through TryLock/Lock/LockWithCtx, which stored the renewal timer in l.future)
+//@   requires l.built() && l.lckCntr == 1 && implements(held(l.future), timeout.Future) && tablesOK() && classesOK()
+//@   modifies ops(l.lockCh), l.lckCntr, l.dlp.Storage.ndelete, l.dlp.Storage.deletedKey, cancels, each(f, timeout.Future, true, f.cancelledByMe)
+//@   ensures l.lckCntr == 0 && l.dlp.Storage.ndelete == old(l.dlp.Storage.ndelete) + 1 && l.dlp.Storage.deletedKey == l.key
+//@   ensures sent(l.lockCh) == old(sent(l.lockCh)) + 1 && received(l.lockCh) == old(received(l.lockCh)) && cancels == old(cancels) + 1
+
+// one renewal attempt for the tenure with version ver: exactly one CAS on (l.key, ver); if it fails nothing is armed
+// (so once the holder has unlocked - the record is gone or has another version - renewal dies out); if it succeeds exactly one
+// new timer is armed and, if somebody else replaced l.future meanwhile, that new timer is cancelled again.
+//@ func (l *kvsLock) supportTimeout(ver string)
+//@   props C04
+//@   maypanic
+//@   requires l.built() && implements(held(l.future), timeout.Future)
+//@   modifies l.future, l.dlp.Storage.ncas, l.dlp.Storage.casKey, l.dlp.Storage.casVer, armed, cancels, clock, each(f, timeout.Future, true, f.cancelledByMe)
+//@   ensures l.dlp.Storage.ncas == old(l.dlp.Storage.ncas) + 1 && l.dlp.Storage.casKey == l.key && l.dlp.Storage.casVer == ver
+//@   ensures armed <= old(armed) + 1 && l.dlp.Storage.ncreate == old(l.dlp.Storage.ncreate) && l.dlp.Storage.ndelete == old(l.dlp.Storage.ndelete)
+//@   ensures sent(l.lockCh) == old(sent(l.lockCh)) && received(l.lockCh) == old(received(l.lockCh)) && l.lckCntr == old(l.lckCntr)
+
+//@ func (dlp *kvsLockProvider) Shutdown()
+//@   props C04
+//@   requires dlp != nil && dlp.done != nil && !closed(dlp.done)
+//@   ensures closed(dlp.done)
+
+// a new locker is built with its token available (one send, capacity 1), counter 0
+//@ func (dlp *kvsLockProvider) NewLocker(name string) sync.Locker
+//@   props C04
+//@   requires dlp != nil
+//@   ensures typeIs(r0, *kvsLock) && fresh(cast(*kvsLock, r0)) && cast(*kvsLock, r0).dlp == dlp && cast(*kvsLock, r0).lckCntr == 0 && cast(*kvsLock, r0).waiters == 0
+//@   ensures cast(*kvsLock, r0).lockCh != nil && fresh(cast(*kvsLock, r0).lockCh) && sentOnce(cast(*kvsLock, r0).lockCh)
